@@ -150,6 +150,9 @@ Syscall32(n) ==
       [] n = "socketcall" -> 102 [] n = "clone" -> 120 [] n = "init_module" -> 128 [] n = "delete_module" -> 129
       [] n = "openat" -> 295 [] n = "open_by_handle_at" -> 342 [] n = "execveat" -> 358 [] n = "bind" -> 361
       [] n = "connect" -> 362 [] n = "accept4" -> 364
+      \* old and new entry points that live side by side in the 32-bit table, names with a leading underscore
+      [] n = "oldstat" -> 18 [] n = "umount" -> 22 [] n = "umount2" -> 52 [] n = "select" -> 82 [] n = "mmap" -> 90
+      [] n = "stat" -> 106 [] n = "_llseek" -> 140 [] n = "_newselect" -> 142 [] n = "_sysctl" -> 149 [] n = "mmap2" -> 192
       [] OTHER -> -1
 SyscallNr(arch, n) == IF arch = "i386" THEN Syscall32(n) ELSE IF arch = "x86_64" THEN Syscall64(n) ELSE -1
 
@@ -160,7 +163,8 @@ SyscallNames64 == { "read", "write", "open", "close", "stat", "mmap", "ioctl", "
                     "open_by_handle_at", "finit_module", "execveat" }
 SyscallNames32 == { "exit", "fork", "read", "write", "open", "close", "creat", "link", "unlink", "execve", "chdir", "chmod", "mount",
                     "setuid", "ptrace", "kill", "rename", "mkdir", "rmdir", "truncate", "ftruncate", "socketcall", "clone",
-                    "init_module", "delete_module", "openat", "open_by_handle_at", "execveat", "bind", "connect", "accept4" }
+                    "init_module", "delete_module", "openat", "open_by_handle_at", "execveat", "bind", "connect", "accept4",
+                    "oldstat", "umount", "umount2", "select", "mmap", "stat", "_llseek", "_newselect", "_sysctl", "mmap2" }
 \* the names the kernel's table gives to number nr (empty when it is not among the transcribed ones)
 NamesOfNr(arch, nr) ==
     IF arch = "x86_64" THEN { n \in SyscallNames64 : Syscall64(n) = nr }
